@@ -1,5 +1,6 @@
 import RadicaleProofs.DavCond
 import RadicaleProofs.CondHeaders
+import RadicaleProofs.Sanitize
 /-
   C08 — ETags identify content and conditional requests prevent lost updates.
   In the model an item's ETag *is* its content id (SHA-256 as a perfect hash), the same value in the PUT
@@ -177,5 +178,25 @@ example : putRefuses (some "\"ab\"".toList) { ifMatch := some "\"ab\"".toList } 
     ∧ overwrites { overwrite := some "t".toList } = false ∧ listsChildren { depth := some "infinity".toList } = true := by decide
 
 end Wire
+
+/-! ### the URL spelling of the target: the handlers' tests speak about "the resource at the path"; which resource that is does
+    not depend on a trailing slash (seed C08i: `PUT /u/cal/e.ics/` with `If-None-Match: *` must see the existing item) -/
+section Spelling
+open Radicale Radicale.Path
+
+/-- the components `sanitize_path` extracts (they are what `discover` resolves, the parent collection and the member name)
+    are the same for both spellings of a URL, with and without the trailing slash … -/
+theorem url_spelling_names_one_resource (comps : List Str) (h : ∀ c ∈ comps, safeComp c = true) :
+    sanitizeComps (shape comps true) = comps ∧ sanitizeComps (shape comps false) = comps :=
+  ⟨sanitizeComps_shape comps true h, sanitizeComps_shape comps false h⟩
+
+/-- … and sanitising any request path and then writing it with the other spelling still names the same components -/
+theorem sanitized_path_either_spelling (p : Str) (t : Bool) :
+    sanitizeComps (shape (sanitizeComps p) t) = sanitizeComps p :=
+  sanitizeComps_shape (sanitizeComps p) t (sanitizeComps_safe p)
+
+example : sanitizeComps "/u/cal/e.ics/".toList = sanitizeComps "/u/cal/e.ics".toList := by decide
+
+end Spelling
 
 end C08
